@@ -148,6 +148,14 @@ Next == \/ \E i \in Ids, ok \in BOOLEAN : Submit(i, ok)
 
 Spec == Init /\ [][Next]_vars
 
+\* Look-ups by id (storage.get_event, HTTP GET /e/<id>) are reads: they change nothing and answer with the stored
+\* event itself - the event that was accepted, field for field - or with nothing ("none").  `got` is what the look-up
+\* produced, projected by equality in all seven fields ("?..." = something that equals no accepted event).
+GetAnswer(S, i) == IF i \in S THEN i ELSE "none"
+LookupOK(S, i, got) == got = GetAnswer(S, i)
+A_C04_LookupVerbatim(i, got) == got \in {i, "none"}            \* whatever is served under an id is that very event
+A_C08_GetAgrees(S, i, got)   == (got = "none") <=> (i \notin S)  \* served iff stored (a removed event is not served)
+
 ----------------------------------------------------------------------------
 (* Properties.  They are stated independently of the actions above.  Each  *)
 (* is an invariant or an action property [][A_Cxx]_vars whose body A_Cxx is *)
